@@ -60,6 +60,9 @@ func (w *vMemWriter) vHash() string {
 		h *= 16777619
 	}
 	for _, n := range w.sortedNames() {
+		if VsIsSymbolic(n) || VsIsSymbolic(w.contents[n]) {
+			return "site depends on symbolic data"
+		}
 		add(n)
 		add(w.contents[n])
 	}
